@@ -73,6 +73,11 @@ static void Handle(const json& c, vh::Report& r) {
     const auto& in = c["seq"][k]; const std::string text = Text(in); const Syntax syn = in.value("auto", false) ? Syntax::UNDEF : in["math"].get<bool>() ? Syntax::MATH : Syntax::ASCII;
     const json rp = ObserveParser(parser, text, syn), ra = ObserveAuditor(*auditor, text, syn), ri = ObserveInterp(*interp, text, syn);
     const json conv = SafeStr(ConvertTo(text, in["math"].get<bool>() ? Syntax::ASCII : Syntax::MATH));
+    // conversion goes through the library's shared generators: its result for a text may not depend on what was converted before
+    { static std::map<std::string, json> firstSeen; const std::string key = text + (in["math"].get<bool>() ? "|M" : "|A");
+      const auto it = firstSeen.find(key);
+      if (it == firstSeen.end()) firstSeen.emplace(key, conv);
+      else if (it->second != conv) r.Violation("C18", "ConvertTo", { {"seq", c["seq"]}, {"input", SafeStr(text)} }, { {"now", conv}, {"before", it->second} }); }
     if (k + 1 < n) continue;                      // every prefix is itself an enumerated sequence
     Parser fp; auto fa = C().m.RSLang().MakeAuditor(); auto fi = C().MakeInterp();
     const json fpo = ObserveParser(fp, text, syn), fao = ObserveAuditor(*fa, text, syn), fio = ObserveInterp(*fi, text, syn);
